@@ -142,7 +142,7 @@ def run(ctx):
             res = z.run(['-n', '--skip-rate-test', '-t', str(TIMEOUT)] + mode_opts + ['127.0.0.1:%d' % srv.port], timeout=90)
             wall = time.time() - t0
             time.sleep(0.02)
-            return {'rc': res['rc'], 'out': res['out'], 'err': res['err'], 'timed_out': res['timed_out'], 'wall': wall, 'conns': srv.conns()}
+            return {'rc': res['rc'], 'out': res['out'], 'err': res['err'], 'timed_out': res['timed_out'], 'wall': wall, 'conns': srv.conns(), 'peer_send': srv.send_time}
         finally:
             srv.shutdown()
 
@@ -165,9 +165,19 @@ def run(ctx):
             ctx.violation('undocumented-status/%s/%s/%s' % (where, c['kind'], (m[-1].split(':')[0] if m else 'status%s' % r['rc'])),
                           'exit status %r after fault %s on message %r of a %s connection (%s): %s' % (r['rc'], c['kind'], c['label'], c['phase'], c['arch'], tb[-300:]), desc)
             continue
-        budget = TIMEOUT * (r['conns'] + 2) * 2.0 + 4.0
+        # the bound of the statement is on the tool's waiting (timeout x connections); the time the scripted peer itself takes to trickle its
+        # bytes out (1-byte segmentation sleeps between segments) is added on top; an over-budget run is confirmed by one isolated re-run,
+        # so that a loaded machine is not mistaken for a slow tool
+        budget = TIMEOUT * (r['conns'] + 2) * 2.0 + 4.0 + 2.0 * r.get('peer_send', 0.0)
         if r['wall'] > budget:
-            ctx.violation('slow/%s/%s' % (where, c['kind']), 'audit took %.1fs for %d connections with timeout %ds' % (r['wall'], r['conns'], TIMEOUT), desc)
+            with runner.Pool(1) as p1:
+                r2 = p1.map(do, [c])[0]
+            budget2 = TIMEOUT * (r2['conns'] + 2) * 2.0 + 4.0 + 2.0 * r2.get('peer_send', 0.0)
+            if r2['wall'] <= budget2:
+                ctx.notes.append('a %s/%s run took %.1fs under load, %.1fs when re-run alone (budget %.1fs)' % (where, c['kind'], r['wall'], r2['wall'], budget2))
+            else:
+                ctx.violation('slow/%s/%s' % (where, c['kind']), 'audit took %.1fs (and %.1fs when re-run alone) for %d connections with timeout %ds; the peer itself spent %.1fs sending' % (
+                    r['wall'], r2['wall'], r2['conns'], TIMEOUT, r2.get('peer_send', 0.0)), desc)
         if desc['mode'] != 'std':
             continue   # policy modes print a verdict / write a file instead of the algorithm report: termination and a documented status are what is judged
         if c['kind'] in ('segment1', 'debug-in-probes', 'prebanner') or where == 'probe':
